@@ -585,7 +585,13 @@ class CaseRun:
         case = self.case
         pname = pop["name"]
         self.res_now: dict[tuple, Any] = {}  # canonical value a returned graph must have now (after evolve_results)
-        graphs = [world.build_graph(h) for h in case["histories"]]
+        try:
+            graphs = [world.build_graph(h) for h in case["histories"]]
+        except Exception as e:  # noqa: BLE001 - a public constructor refusing a valid construction history
+            bad = next((h for h in case["histories"] if not _builds(h)), case["histories"][0])
+            self.viol("O5", "constructor:" + bad["ctor"] + (":pickled" if bad.get("via") else ""),
+                      f"raised:{type(e).__name__}", pname, history=bad, msg=str(e)[:200])
+            return {}
         for h in case["histories"]:
             f = self.stats["faults"]
             f["reorder"] += 1
@@ -779,7 +785,12 @@ class CaseRun:
             if r < nrounds - 1 or rnd.get("evolve"):
                 for gi, steps in rnd.get("evolve", []):
                     if gi < len(graphs):
-                        world.apply_steps(graphs[gi], steps)
+                        try:
+                            world.apply_steps(graphs[gi], steps)
+                        except Exception as e:  # noqa: BLE001 - the public add_* API refusing a legal edit
+                            self.viol("O5", "evolve", f"raised:{type(e).__name__}", pname, graph=gi, steps=steps,
+                                      msg=str(e)[:200])
+                            return results
                         shared_fp[f"g{gi}"] = graph_fingerprint(graphs[gi])
                         self.stats["faults"]["evolve"] += 1
                         self._probe("evolve-after-result-returned" if values else "evolve")
@@ -1123,6 +1134,14 @@ class CaseRun:
             self._probe(f"{op}:empty-S")
         if "S" in spec["a"] and S == set(m.N) and S:
             self._probe(f"{op}:S-is-all-nodes")
+
+
+def _builds(h: dict) -> bool:
+    try:
+        world.build_graph(h)
+        return True
+    except Exception:  # noqa: BLE001
+        return False
 
 
 def _type_ok(kind: str, val: Any) -> bool:
